@@ -101,7 +101,8 @@ impl Recorder {
     o.subscribe(
       move |x| {
         let _t = &t1;
-        let ev = Ev::Next(x);
+        let ev = Ev::Next(x.strip());
+        drop(x);
         let i = Self::enter(&l1, ev.clone(), p);
         if let Some(h) = &h1 {
           h(&ev);
